@@ -255,7 +255,15 @@ func genFileDoc(r *simrt.Rng, now0 int64, forRestart bool) (ydoc, *FileExpect) {
 					st.params[p] = fmt.Sprintf("%s-%d", p, i)
 				}
 			}
-			fe.Params = st.params
+			fe.Params = map[string]string{}
+			for k, v := range st.params {
+				fe.Params[k] = v
+			}
+			if r.Intn(12) == 0 {
+				// a parameter the operating system refuses (its name contains '='): it cannot be exported, the others
+				// of the stage still are, and none of them outlives the stage
+				st.params["F1V=BAD"] = "x"
+			}
 		} else if d.def.params != nil {
 			fe.Params = d.def.params
 		} else {
